@@ -37,10 +37,16 @@ VStep(op, r, s) ==
        [] op[1] = "swap"        -> vec' = [vec EXCEPT ![v] = vec[o], ![o] = m]
        [] op[1] = "release"     -> vec' = Set1(v, <<>>) /\ Proj(s, v).cap = 0
        [] op[1] = "sort"        -> LET it == Proj(s, v).items IN Ascending(it) /\ SameBag(it, m) /\ vec' = Set1(v, it)
+       [] op[1] = "sort_desc"   -> LET it == Proj(s, v).items IN Ascending(Reverse(it)) /\ SameBag(it, m) /\ vec' = Set1(v, it)
+       [] op[1] = "appendn"     -> vec' = IF Ok(r) THEN Set1(v, m \o [k \in 1 .. a |-> b + k - 1]) ELSE Set1(v, Proj(s, v).items)
+       [] op[1] = "append_u"    -> vec' = Set1(v, Append(m, a))
+       [] op[1] = "prepend_u"   -> vec' = Set1(v, <<a>> \o m)
+       [] op[1] = "insert_u"    -> a <= Len(m) /\ vec' = Set1(v, InsertAt(m, a + 1, b))
+       [] op[1] = "concat_u"    -> vec' = Set1(v, m \o vec[o])
+       [] op[1] = "assign_u"    -> vec' = Set1(v, vec[o])
+       [] op[1] = "move"        -> vec' = vec /\ r[1] = 0 /\ r[2] = 0 /\ r[3]       \* the moved-from vector is empty
        [] op[1] = "index_of"    -> vec' = vec /\ r[1] = FirstPos(m, a) - 1
-       [] op[1] = "last_index_of" -> /\ vec' = vec
-                                     /\ \/ r[1] = LastPos(m, a) - 1
-                                        \/ (r[1] = FirstPos(m, a) - 1 /\ KnownFinding("C18K_vector_last_index_of_returns_first"))
+       [] op[1] = "last_index_of" -> vec' = vec /\ r[1] = LastPos(m, a) - 1
        [] op[1] = "contains"    -> vec' = vec /\ r[1] = (IF \E i \in DOMAIN m : m[i] = a THEN 1 ELSE 0)
        [] op[1] = "iter"        -> vec' = vec /\ r[1] = m
        [] op[1] = "riter"       -> vec' = vec /\ r[1] = Reverse(m)
